@@ -18,6 +18,7 @@ import (
 	commonconfig "github.com/smartcontractkit/chainlink-common/pkg/config"
 
 	"github.com/smartcontractkit/chainlink-ccip/chainconfig"
+	"github.com/smartcontractkit/chainlink-ccip/commit/merkleroot"
 	"github.com/smartcontractkit/chainlink-ccip/internal/plugintypes"
 	cciptypes "github.com/smartcontractkit/chainlink-ccip/pkg/types/ccipocr3"
 	"github.com/smartcontractkit/chainlink-ccip/pluginconfig"
@@ -1446,8 +1447,13 @@ func TestVerif_C20_commit_sort(t *testing.T) {
 			return ks
 		}
 		ra, ro, of := mk(), mk(), mk()
+		// the canonical sort of Encode must not depend on the outcome type: a ReportEmpty / ReportTransmitted /
+		// ReportTransmissionFailed outcome still carries OffRampNextSeqNums (seeded change C20-12 skipped the sort there)
+		ot := vPick(r, []merkleroot.OutcomeType{merkleroot.ReportIntervalsSelected, merkleroot.ReportGenerated, merkleroot.ReportEmpty,
+			merkleroot.ReportInFlight, merkleroot.ReportTransmitted, merkleroot.ReportTransmissionFailed, 0})
 		build := func(pr, po, pf []int) (Outcome, string) {
 			var o Outcome
+			o.MerkleRootOutcome.OutcomeType = ot
 			var sa, sb, sc []string
 			for _, x := range pr {
 				o.MerkleRootOutcome.RangesSelectedForReport = append(o.MerkleRootOutcome.RangesSelectedForReport,
